@@ -38,6 +38,19 @@ type conn struct {
 	server *Server
 	rcv    chan string
 	i      int
+
+	// deliver, when set, receives the messages of this connection instead
+	// of the server wide handler
+	deliver func(Message)
+}
+
+func (c *conn) serveMessage(msg Message) {
+	if c.deliver != nil {
+		c.deliver(msg)
+		return
+	}
+
+	serverHandler{c.server}.Serve(msg)
 }
 
 func (c *conn) newMessage() *Message {
@@ -147,7 +160,7 @@ func mailFromState(c *conn) stateFn {
 
 		c.PrintfLine("250 Ok : queued as +%x", hasher.Sum(nil))
 
-		serverHandler{c.server}.Serve(*c.msg)
+		c.serveMessage(*c.msg)
 
 		c.msg = c.newMessage()
 		return loopState
@@ -162,7 +175,7 @@ func mailFromState(c *conn) stateFn {
 
 		c.PrintfLine("250 Ok : queued as +%x", hasher.Sum(nil))
 
-		serverHandler{c.server}.Serve(*c.msg)
+		c.serveMessage(*c.msg)
 
 		c.msg = c.newMessage()
 		return loopState
